@@ -90,6 +90,7 @@ func (c07) Gen(r *sim.Rand, c *sim.Case, tier string) {
 	sharedStyle, sharedBase := !Wild && r.Chance(0.15), r.Intn(4)
 	for i, s := range slots {
 		g := world.NewGen(r.Fork())
+		g.Extra = true
 		g.Alpha = alpha
 		g.Fam = fam
 		g.HFOncePerKind, g.RectTablesOnly, g.WellFormedMath = true, true, true
@@ -500,7 +501,7 @@ func (c07) Exec(c *sim.Case, env *Env) []sim.Violation {
 	return viol
 }
 
-var noteOps = map[string]bool{"fn": true, "en": true, "rmfn": true, "rmen": true}
+var noteOps = map[string]bool{"fn": true, "en": true, "rmfn": true, "rmen": true, "fnrun": true}
 var listOps = map[string]bool{"li": true, "bullet": true, "numbered": true, "t.celllist": true, "restartnum": true, "mllist": true}
 
 func btoiP(b bool) int {
